@@ -62,7 +62,17 @@ def prop_C10(run):
                       "DET3 no clock/thread/env/address/atomic/cell use", "DET4 statics immutable and Freeze"]
 
 
+def prop_C18(run):
+    import rules_tab, rules_det
+    rules_tab.tab_cli(run)
+    # hash order of the format-parameter map must not reach a diagnostic
+    pof = run.prog.find("driver::parse_output_format")
+    rules_det.det1(run, fns=pof + [g for g in run.prog.real_fns() if g.raw.get("parent") == "driver::parse_output_format"], rule="DET1")
+    run.rules_run += ["TAB-cli usage_help.md <-> make_opts <-> parse_command <-> parse_output_format <-> derive_output_filename", "DET1 on the format parameter map"]
+
+
 PROPS = {
+    "C18": prop_C18,
     "C10": prop_C10,
 }
 
@@ -73,6 +83,7 @@ def main():
     ap.add_argument("--tier", default=os.environ.get("VERIF_TIER", "quick"))
     ap.add_argument("--repo", default="/repo")
     ap.add_argument("--replay", default=None)
+    ap.add_argument("--no-evidence", action="store_true", help="do not write evidence/replay files (used when checking a scratch copy)")
     a = ap.parse_args()
     seed = int(os.environ.get("VERIF_SEED", "0") or 0)
     if a.prop not in PROPS:
@@ -100,7 +111,7 @@ def main():
         for o in run.obs:
             print("replay: [%s] %s: %s -- %s" % (o.status, o.loc, o.key, o.detail))
         return 1 if any(o.status == "violation" for o in run.obs) else 0
-    return engine.finish(run, seed)
+    return engine.finish(run, seed, write=not a.no_evidence)
 
 
 if __name__ == "__main__":
